@@ -104,6 +104,12 @@ def hypotheses(c, H, A, L, W):
     return h0, h1, h2, h3, best
 
 
+def within_documented_limit(c, H, A):
+    """ every line, terminator included, is at most A*H bytes long """
+    return all(len(ln) + 1 <= A * H for ln in c.split(b'\n')[:-1]) and \
+        len(c.split(b'\n')[-1]) <= A * H
+
+
 # ------------------------------------------------------------ implementation
 class NamedBytesIO(io.BytesIO):
     name = 'c04-bytesio'
@@ -250,10 +256,10 @@ LEN_MARKS = [19, 20, 21, 40, 62, 63, 64, 65, 66, 100, 254, 255, 256, 257,
 
 
 def gen_log(rng, nlines, H, ordered=True, max_run=None, len_marks=None,
-            maxlen=None):
+            maxlen=None, t_start=None, final_lf=None):
     """ returns (content, list of timestamps seconds used) """
     marks = len_marks or LEN_MARKS
-    t = rng.choice([0, 5, 100])
+    t = rng.choice([0, 5, 100]) if t_start is None else t_start
     out = bytearray()
     times = []
     run = 0
@@ -291,7 +297,52 @@ def gen_log(rng, nlines, H, ordered=True, max_run=None, len_marks=None,
         if maxlen is not None and len(body) > maxlen:
             body = body[:maxlen]
         out += body
-        if i < nlines - 1 or rng.random() < 0.6:
+        if i < nlines - 1 or (rng.random() < 0.6 if final_lf is None
+                              else final_lf):
+            out += b'\n'
+    return bytes(out), times
+
+
+def gen_tight(rng, H, A, L):
+    """ time-ordered log whose lines sit exactly at the search budget:
+    interior lines up to A*H bytes (terminator included), first line up to
+    (A-1)*H + 1, an unterminated last line up to (A-1)*H """
+    def line(target, t):
+        # target = length with terminator
+        if t is not None and target - 1 >= 19:
+            body = ts_text(t)
+            if target - 1 >= 20:
+                body += b' ' + b'm' * (target - 21)
+            return body, True
+        return b'u' * max(0, target - 1), False
+    nl = rng.choice([2, 3, 4, 5, 6])
+    t = rng.choice([0, 7])
+    out, times, run = bytearray(), [], 0
+    final_lf = rng.random() < 0.6
+    for i in range(nl):
+        if i == 0:
+            cap = (A - 1) * H + 1
+        elif i == nl - 1 and not final_lf:
+            cap = (A - 1) * H + 1          # body <= (A-1)*H, no terminator
+        else:
+            cap = A * H
+        target = rng.choice([cap, cap, cap - 1, max(1, cap - H), 21, 20, 2, 1])
+        target = max(1, min(target, cap))
+        want_dated = rng.random() < 0.7 or run >= L - 1
+        if want_dated and target - 1 < 19 and cap - 1 >= 19:
+            target = rng.choice([20, min(cap, 21), cap])
+        tt = None
+        if want_dated and target - 1 >= 19:
+            t += rng.choice([0, 1, 1, 2, 60])
+            tt = t
+        body, dated = line(target, tt)
+        if dated:
+            times.append(t)
+            run = 0
+        else:
+            run += 1
+        out += body
+        if i < nl - 1 or final_lf:
             out += b'\n'
     return bytes(out), times
 
@@ -320,12 +371,15 @@ def to_secs(t):
 
 
 # ----------------------------------------------------------------- streams
+_SEEN = {}
+
+
 def run_cases(chk, tag, items, claim, shard):
     """ items: (H, A, L, W, content, [since t...], source).  claim=True: the
     inputs satisfy the hypotheses, the implementation is judged against the
     specification. """
     t0 = time.time()
-    cases, wants_m, wants_s, meta = [], [], [], []
+    cases, wants_m, wants_s, meta, docs = [], [], [], [], []
     n_eval = 0
     for (H, A, L, W, c, sinces, source) in items:
         path = None
@@ -376,6 +430,8 @@ def run_cases(chk, tag, items, claim, shard):
         wants_m.append(rows)
         wants_s.append([spec_row, h2, best])
         meta.append((H, A, L, W, c, sinces, source, inside))
+        docs.append(claim and not inside and h0 and h2 and h3 and
+                    within_documented_limit(c, H, A))
         if path:
             os.unlink(path)
     t1 = time.time()
@@ -410,6 +466,27 @@ def run_cases(chk, tag, items, claim, shard):
                        'MAX_DATETIME_READ_BYTES': W,
                        'inside_hypotheses': inside,
                        'first_difference': bad}, witness=False)
+    # lines within the documented A*H limit but outside the exact budget of
+    # the modelled code: the implementation (== model) raises
+    # MaxSearchableLineLengthReached and skips the file
+    differs = {i for i, _ in mism}
+    for i, doc in enumerate(docs):
+        if not doc or i in differs:
+            continue
+        H, A, L, W, c, sinces, source, inside = meta[i]
+        for t, res, want in zip(sinces, wants_m[i], wants_s[i][0]):
+            if res[0] == [4] and res[1] != [want]:
+                chk.dist('GAP_since_seek_skips_file_within_limit')
+                if _SEEN.setdefault('gap', 0) < 2:
+                    _SEEN['gap'] += 1
+                    chk.violation(
+                        'maxline-raised-within-limit edge=first-or-last-line: '
+                        'since seek skips the file',
+                        {'content': list(c), 'since': str(to_dt(t)),
+                         'impl_outcome': res[0], 'impl_position': res[1],
+                         'first_in_window': want, 'SEEK_HORIZON': H,
+                         'MAX_SEEK_HORIZON_EXPAND': A, 'source': source})
+                break
     chk.coverage['evaluations'] += n_eval
     chk.coverage['traces_validated_against_impl'] += n_eval
     chk.coverage.setdefault('phase_s', {})[tag] = {
@@ -453,6 +530,58 @@ def suffix_runs(chk, metas, limit):
     return done
 
 
+
+def growth_runs(chk, n, H0, A0, L0, W0):
+    """ the SAME constraint object applied to the same path again after the
+    (append-only, time-ordered) log has grown: the file must again be left at
+    first_in_window of the current contents """
+    from searchkit import constraints as K
+    rng = chk.rng
+    TS = _matcher_cls()
+    path = os.path.join(chk.work, 'c04_growing.log')
+    for k in range(n):
+        H = rng.choice([H0, H0, 16, 8])
+        c1, times1 = gen_log(rng, rng.choice([1, 2, 3, 5, 8]), H, ordered=True,
+                             max_run=3, final_lf=True)
+        t_last = max(times1) if times1 else 0
+        ext, times2 = gen_log(rng, rng.choice([1, 2, 3, 6]), H, ordered=True,
+                              max_run=3, t_start=t_last + rng.choice([0, 1, 30]))
+        c2 = c1 + ext
+        alls = sorted(set(times1 + times2)) or [0]
+        t = rng.choice([alls[0] - 1, alls[-1], alls[-1] + 1, t_last + 1,
+                        t_last, rng.choice(alls)])
+        inside = all(all(hypotheses(c, H, A0, L0, W0)[:4]) for c in (c1, c2))
+        with PatchedL(H, A0, L0, W0):
+            cons = K.SearchConstraintSearchSince(
+                current_date=to_dt(t).strftime(FMT), ts_matcher_cls=TS,
+                days=0, hours=0)
+            pos = []
+            for c in (c1, c2):
+                with open(path, 'wb') as f:
+                    f.write(c)
+                with open(path, 'rb') as fd:
+                    try:
+                        cons.apply_to_file(fd)
+                        pos.append(fd.tell())
+                    except AssertionError:
+                        pos.append(None)
+        os.unlink(path)
+        chk.coverage['evaluations'] += 2
+        chk.dist('growth_runs')
+        wants = [ref_first_in_window(c1, to_secs(t), W0),
+                 ref_first_in_window(c2, to_secs(t), W0)]
+        if wants[0] == len(c1):
+            chk.dist('growth_first_run_found_nothing')
+        if inside and pos != wants:
+            chk.violation(
+                'since-position-differs-from-first-in-window (same '
+                'constraint applied again after the log grew)',
+                {'content_first_application': list(c1),
+                 'content_second_application': list(c2),
+                 'since': str(to_dt(t)), 'impl_positions': pos,
+                 'first_in_window': wants, 'SEEK_HORIZON': H})
+
+
 def run(chk):
     chk.prove(PROPS)
     params = vlib.gen_info()['params']
@@ -470,7 +599,9 @@ def run(chk):
         "= real apply_to_file + tell + seeker.run vs model (in Coq) vs "
         "first_in_window (in Coq and by a plain-Python reference); real "
         "FileSearcher(constraint) vs real FileSearcher on the suffix for a "
-        "sample; hostile: unordered logs, undated runs > patched L, lines "
+        "sample; tight: lines exactly at the search budget for small patched "
+        "A; growth: the same constraint applied again after the log grew; "
+        "hostile: unordered logs, undated runs > patched L, lines "
         "beyond a patched A*H (model vs implementation only). "
         "distinct_nontrivial = structured (content, since) pairs whose "
         "expected position is neither 0 nor EOF")
@@ -516,6 +647,18 @@ def run(chk):
     chk.sample({'patched_case': {'H': items[0][0], 'A': items[0][1],
                                  'L': items[0][2], 'W': items[0][3],
                                  'content': items[0][4].decode()}})
+
+    # structured, lines exactly at the search budget (small patched A)
+    items = []
+    for k in range(30 if q else 200):
+        H = rng.choice([7, 8, 16])
+        A = rng.choice([a for a in (3, 4, 5, 6, 8) if (a - 1) * H >= 21])
+        L = rng.choice([2, 3, 4, L0])
+        c, times = gen_tight(rng, H, A, L)
+        items.append((H, A, L, rng.choice([W0, 19]), c,
+                      since_choices(rng, times, 5), 'tight/bytesio'))
+    chk.dist('files_tight', len(items))
+    metas += run_cases(chk, 'tight', items, True, shard=10)
 
     # hostile (model vs implementation only; the spec makes no claim)
     items = []
@@ -565,6 +708,7 @@ def run(chk):
                  'first_in_window': want,
                  'exact_budget_hypothesis_h1_holds': h1})
 
+    growth_runs(chk, 60 if q else 400, H0, A0, L0, W0)
     done = suffix_runs(chk, metas, 60 if q else 300)
     chk.dist('suffix_comparisons', done)
     nontrivial = set()
